@@ -68,24 +68,37 @@ def bsize(b):
 
 # ------------------------------------------------------------------------------------------------ infinite states
 
-def _dominant(E, left):
-    w, v = np.linalg.eig(E.T if left else E)
-    k = int(np.argmax(np.abs(w)))
-    gap = np.sort(np.abs(w))[-2] / abs(w[k]) if len(w) > 1 else 0.0
-    return w[k], v[:, k], gap
+def _fixed_point(M, left, iters=400, tol=1e-13):
+    """Dominant eigenvector of the transfer map of M[a, s, b] by power iteration from the identity (stays positive
+    semi-definite; numerically stable also for large bond dimension).  Returns (eigenvalue, matrix, converged?)."""
+    v = np.eye(M.shape[0] if left else M.shape[2], dtype=complex)
+    v /= np.linalg.norm(v)
+    Mc = M.conj()
+    eta = 0.0
+    for _ in range(iters):
+        if left:     # w[b, d] = M[a, s, b] v[a, c] conj(M[c, s, d])
+            w = np.tensordot(np.tensordot(v, M, axes=(0, 0)), Mc, axes=([0, 1], [0, 1]))
+        else:        # w[a, c] = M[a, s, b] v[b, d] conj(M[c, s, d])
+            w = np.tensordot(np.tensordot(M, v, axes=(2, 0)), Mc, axes=([1, 2], [1, 2]))
+        eta = np.linalg.norm(w)
+        if eta < 1e-200:
+            return 0.0, v, False
+        w /= eta
+        diff = np.linalg.norm(w - v)
+        v = w
+        if diff < tol:
+            return eta, v, True
+    return eta, v, False
 
 
 def imps_data(T, W):
-    """(dominant TM eigenvalue, gap ratio, reduced density matrix of the first W elementary sites) of ...TTT..."""
+    """(dominant transfer-matrix eigenvalue, converged?, reduced density matrix of the first W elementary sites)
+    of the infinite state ...TTT...; l[a, c], r[b, d] are the fixed points for (ket, bra) indices."""
     chi = T.shape[0]
     dims = T.shape[1:-1]
-    D = int(np.prod(dims))
-    M = T.reshape(chi, D, T.shape[-1])
-    E = np.einsum('asb,csd->acbd', M, M.conj()).reshape(chi * chi, chi * chi)
-    eta, r, gap = _dominant(E, False)
-    _, l, _ = _dominant(E, True)
-    r = r.reshape(chi, chi)
-    l = l.reshape(chi, chi)
+    M = T.reshape(chi, -1, T.shape[-1])
+    eta, r, ok_r = _fixed_point(M, False)
+    _, l, ok_l = _fixed_point(M, True)
     n = len(dims)
     cells = -(-W // n)
     th = M
@@ -93,11 +106,26 @@ def imps_data(T, W):
         th = np.tensordot(th, M, axes=(-1, 0)).reshape(chi, -1, chi)
     keep = int(np.prod((dims * cells)[:W]))
     th = th.reshape(chi, keep, -1, chi)
-    lt = np.tensordot(l, th, axes=(0, 0))                  # c s r b   (l[a,c] th[a,s,r,b])
-    ltr = np.tensordot(lt, r, axes=(3, 0))                 # c s r d   (r[b,d])
-    rho = np.einsum('csrd,ctrd->st', ltr, th.conj())
-    rho = rho / np.trace(rho)
-    return eta, gap, rho
+    ltr = np.tensordot(np.tensordot(l, th, axes=(0, 0)), r, axes=(3, 0))    # (c s x d) = l[a,c] th[a,s,x,b] r[b,d]
+    rho = np.einsum('csxd,ctxd->st', ltr, th.conj())
+    tr = np.trace(rho)
+    return eta, ok_r and ok_l and abs(tr) > 1e-200, rho / (tr if abs(tr) > 1e-200 else 1.0)
+
+
+def trim_cell(T):
+    """Restrict the virtual space of the unit-cell tensor to the support of the dominant right and left fixed points
+    (drops transient / sub-dominant blocks, which do not contribute to the infinite state)."""
+    for left in (False, True):
+        chi = T.shape[0]
+        _, v, ok = _fixed_point(T.reshape(chi, -1, chi), left)
+        if not ok:
+            return T
+        w, Q = np.linalg.eigh((v.T if left else v) / np.trace(v))
+        keep = w > 1e-9
+        if not keep.all():
+            Q = Q[:, keep]
+            T = np.tensordot(Q.conj().T, np.tensordot(T, Q, axes=(-1, 0)), axes=(1, 0))
+    return T
 
 
 def roll_cell(T, k):
@@ -110,9 +138,10 @@ def roll_cell(T, k):
     dims = T.shape[1:-1]
     D1 = int(np.prod(dims[:n - k]))
     u, s, vh = np.linalg.svd(T.reshape(chiL * D1, -1), full_matrices=False)
-    keep = s > 1e-13 * s[0]
-    X = (u[:, keep] * s[keep]).reshape((chiL,) + dims[:n - k] + (-1,))
-    Y = vh[keep].reshape((-1,) + dims[n - k:] + (chiR,))
+    keep = s > 1e-10 * s[0]      # (balanced split: keeps the transfer matrix of the new cell well conditioned)
+    keep[0] = True
+    X = (u[:, keep] * np.sqrt(s[keep])).reshape((chiL,) + dims[:n - k] + (-1,))
+    Y = (vh[keep] * np.sqrt(s[keep])[:, None]).reshape((-1,) + dims[n - k:] + (chiR,))
     return np.tensordot(Y, X, axes=(-1, 0))
 
 
@@ -231,14 +260,20 @@ class Shadow:
     def plain(self):
         return all(b == 1 for b in self.blocks)
 
-    def window(self):
-        return min(2 * self.n, 7)
+    def window(self, n=None):
+        """Number of elementary sites of the window on which infinite states are compared (dimension <= 520)."""
+        dims = [e.dim for e in self.elem] * 3
+        n = self.n if n is None else n
+        W = 1
+        while W < 2 * n + 1 and int(np.prod(dims[:W + 1])) <= 520:
+            W += 1
+        return W
 
     def normalize(self, keep_norm=False):
         """Rescale T to unit norm; multiply the factor into `norm` unless keep_norm."""
         if self.bc == 'infinite':
-            eta, _, _ = imps_data(self.T, 1)
-            f = np.sqrt(abs(eta))
+            self.T = trim_cell(self.T)
+            f = np.sqrt(abs(imps_data(self.T, 1)[0]))
         else:
             f = np.linalg.norm(self.T)
         self.T = self.T / f
